@@ -145,31 +145,28 @@ theorem OO_permutePMX (vx vy : List Nat) : OO (permutePMX vx vy) := by
     | none => exact OO.fail _
     | some c1 => exact OO.pure _
 
-theorem OO_cycleLoop (p0 p1 : List Nat) : ∀ (is : List Nat) (ch : Kids), OO (cycleLoop p0 p1 is ch) := by
+theorem OO_cycleLoop (p0 p1 : List Nat) : ∀ (is : List Nat) (asg : List (Option Bool)), OO (cycleLoop p0 p1 is asg) := by
   intro is
   induction is with
-  | nil => intro ch; simp only [cycleLoop]; exact OO.pure _
+  | nil => intro asg; simp only [cycleLoop]; exact OO.pure _
   | cons i is ih =>
-    intro ch
+    intro asg
     simp only [cycleLoop]
     split
     · exact ih _
     · apply OO.bind (OO_nextIdx _ _)
       intro c
-      cases cyclePick p0 p1 (2 * p0.length + 2) c 0 i ch with
+      cases orbit p0 p1 i with
       | none => exact OO.fail _
-      | some ch' => exact ih _
+      | some o => exact ih _
 
 theorem OO_permuteCycle (vx vy : List Nat) : OO (permuteCycle vx vy) := by
   unfold permuteCycle
   apply OO.bind (OO_cycleLoop _ _ _ _)
-  intro ch
-  cases allSomeNat ch.1 with
+  intro asg
+  cases allSomeBool asg with
   | none => exact OO.fail _
-  | some c0 =>
-    cases allSomeNat ch.2 with
-    | none => exact OO.fail _
-    | some c1 => exact OO.pure _
+  | some sides => exact OO.pure _
 
 theorem OO_place (loc : Option Nat) (x y : DNA) (c0 c1 : List Nat) : OO (place loc x y c0 c1) := by
   unfold place
